@@ -1,7 +1,7 @@
-import Driver.Proto
+import Driver.CpuUtil
 namespace Driver
 
-/-- C05 correspondence (stub) -/
-def checkC05 (l : Line) : Verdict := .bad s!"stream {l.stream} not implemented"
+/-- C05: data semantics, one instruction per line -/
+def checkC05 (l : Line) : Verdict := checkCpu l
 
 end Driver
